@@ -1,29 +1,43 @@
 package main
 
-// guard_thread.go — path-sensitive variant of guardEdges+reachUnguarded for boolean temporaries.
+// guard_thread.go — path-sensitive variant of guardEdges+reachUnguarded for merged conditions.
 //
-// `ok := a || b; …; if ok {` compiles to a bool phi that is tested later. Edge dominance on the plain CFG
-// cannot see that the edge `ok == true` coming from the predecessor where the phi is the constant true has
-// established `a`, nor that the false edge of `if ok` establishes `!a` and `!b`. This exploration threads
-// the jumps: it remembers, per path, which incoming edge each condition-feeding bool phi took, resolves an
-// If condition through that choice (and through `!`), follows only the feasible successor when the resolved
-// condition is a constant, and tests the guard atoms against the resolved condition otherwise. It reaches a
-// subset of what the path-insensitive search reaches, so it can only turn spurious violations into "held".
+// `ok := a || b; …; if ok {` compiles to a bool phi that is tested later, and
+// `if err = stage(); err == nil { err = commit() }; if err != nil { return err }` to an error-valued phi that
+// is compared later. Edge dominance on the plain CFG sees neither that the false edge of `if ok` establishes
+// `!a` and `!b`, nor that the second test decides `commit() == nil` (the path on which the phi is stage()'s
+// error is infeasible there: that error was already found non-nil). This exploration threads the jumps: per
+// path it remembers which incoming edge each condition-feeding phi took and which `value ==/!= constant` facts
+// about those incoming values it has crossed; it resolves an If condition through the phi choices (and `!`),
+// follows only the feasible successor when the resolved condition is decided by a constant or a recorded
+// fact, and otherwise tests the guard atoms against the resolved condition. It reaches a subset of what the
+// path-insensitive search reaches, so it can only turn spurious violations into "held".
 
 import (
 	"fmt"
 	"go/token"
 	"sort"
 	"strings"
+	"sync"
 
 	"golang.org/x/tools/go/ssa"
 )
 
 const threadStateCap = 20000
 
-// condPhis: bool phis that (transitively, through ! and other phis) feed an If condition of fn.
-func condPhis(fn *ssa.Function) map[*ssa.Phi]bool {
-	out := map[*ssa.Phi]bool{}
+func isCmpOp(op token.Token) bool {
+	switch op {
+	case token.EQL, token.NEQ, token.LSS, token.LEQ, token.GTR, token.GEQ:
+		return true
+	}
+	return false
+}
+
+// condPhis: phis that feed an If condition of fn — as the condition itself (through ! and other phis) or as an
+// operand of the comparison that is the condition. inputs = the non-constant values those phis merge.
+func condPhis(fn *ssa.Function) (phis map[*ssa.Phi]bool, inputs map[ssa.Value]bool) {
+	phis = map[*ssa.Phi]bool{}
+	inputs = map[ssa.Value]bool{}
 	var add func(v ssa.Value, d int)
 	add = func(v ssa.Value, d int) {
 		if d > 8 {
@@ -34,12 +48,25 @@ func condPhis(fn *ssa.Function) map[*ssa.Phi]bool {
 			if x.Op == token.NOT {
 				add(x.X, d+1)
 			}
+		case *ssa.BinOp:
+			if isCmpOp(x.Op) {
+				for _, o := range []ssa.Value{x.X, x.Y} {
+					if p, ok := o.(*ssa.Phi); ok {
+						add(p, d+1)
+					}
+				}
+			}
 		case *ssa.Phi:
-			if out[x] {
+			if phis[x] {
 				return
 			}
-			out[x] = true
+			phis[x] = true
 			for _, e := range x.Edges {
+				if _, isConst := e.(*ssa.Const); !isConst {
+					if _, isPhi := e.(*ssa.Phi); !isPhi {
+						inputs[e] = true
+					}
+				}
 				add(e, d+1)
 			}
 		}
@@ -52,21 +79,43 @@ func condPhis(fn *ssa.Function) map[*ssa.Phi]bool {
 			add(iff.Cond, 0)
 		}
 	}
-	return out
+	return
 }
 
-type threadEnv map[*ssa.Phi]int
+type threadFact struct {
+	v ssa.Value
+	k string // constant it was compared with
+}
+
+type threadEnv struct {
+	phi   map[*ssa.Phi]int
+	facts map[threadFact]bool // true: v == k is known; false: v != k is known
+}
 
 func (e threadEnv) key() string {
-	if len(e) == 0 {
+	if len(e.phi) == 0 && len(e.facts) == 0 {
 		return ""
 	}
-	s := make([]string, 0, len(e))
-	for p, i := range e {
+	s := make([]string, 0, len(e.phi)+len(e.facts))
+	for p, i := range e.phi {
 		s = append(s, fmt.Sprintf("%s=%d", p.Name(), i))
+	}
+	for f, eq := range e.facts {
+		s = append(s, fmt.Sprintf("%s~%s:%v", f.v.Name(), f.k, eq))
 	}
 	sort.Strings(s)
 	return strings.Join(s, ",")
+}
+
+func (e threadEnv) clone() threadEnv {
+	n := threadEnv{phi: make(map[*ssa.Phi]int, len(e.phi)), facts: make(map[threadFact]bool, len(e.facts))}
+	for k, v := range e.phi {
+		n.phi[k] = v
+	}
+	for k, v := range e.facts {
+		n.facts[k] = v
+	}
+	return n
 }
 
 // predIndexOf: index in to.Preds of the edge from.Succs[si].
@@ -89,18 +138,171 @@ func predIndexOf(from *ssa.BasicBlock, si int) int {
 	return -1
 }
 
-// reachThreaded is reachUnguarded(fn, guardEdges(fn, g), g.afters) made path-sensitive as described above.
-// nGuardEdges counts the (block, successor) pairs on which the guard was found established at least once.
-func reachThreaded(fn *ssa.Function, g guardSpec) (limit map[*ssa.BasicBlock]int, nGuardEdges int, descr []string) {
-	interesting := condPhis(fn)
-	if len(interesting) == 0 {
-		removed, d := guardEdges(fn, g)
-		return reachUnguarded(fn, removed, g.afters), len(removed), d
+// resolvedCond is an If condition after substituting the phi choices of the path.
+type resolvedCond struct {
+	val  ssa.Value // bool value form (nil when cmp form)
+	op   token.Token
+	x, y ssa.Value // comparison form
+	neg  bool
+}
+
+func (e threadEnv) through(v ssa.Value) ssa.Value {
+	for i := 0; i < 16; i++ {
+		p, ok := v.(*ssa.Phi)
+		if !ok {
+			return v
+		}
+		idx, ok := e.phi[p]
+		if !ok || idx < 0 || idx >= len(p.Edges) {
+			return v
+		}
+		v = p.Edges[idx]
 	}
-	phisIn := map[*ssa.BasicBlock][]*ssa.Phi{}
-	for p := range interesting {
-		phisIn[p.Block()] = append(phisIn[p.Block()], p)
+	return v
+}
+
+func (e threadEnv) resolve(v ssa.Value) resolvedCond {
+	neg := false
+	for i := 0; i < 16; i++ {
+		switch x := v.(type) {
+		case *ssa.UnOp:
+			if x.Op == token.NOT {
+				neg = !neg
+				v = x.X
+				continue
+			}
+		case *ssa.Phi:
+			if w := e.through(x); w != v {
+				v = w
+				continue
+			}
+		case *ssa.BinOp:
+			if isCmpOp(x.Op) {
+				return resolvedCond{op: x.Op, x: e.through(x.X), y: e.through(x.Y), neg: neg}
+			}
+		}
+		break
 	}
+	return resolvedCond{val: v, neg: neg}
+}
+
+// decided: the truth value of the resolved condition if constants or recorded facts fix it.
+func (e threadEnv) decided(rc resolvedCond) (truth bool, ok bool) {
+	if rc.val != nil {
+		if k, isConst := rc.val.(*ssa.Const); isConst {
+			return (constString(k) == "true") != rc.neg, true
+		}
+		if eq, known := e.facts[threadFact{rc.val, "true"}]; known {
+			return eq != rc.neg, true
+		}
+		return false, false
+	}
+	if rc.op != token.EQL && rc.op != token.NEQ {
+		return false, false
+	}
+	kx, xc := rc.x.(*ssa.Const)
+	ky, yc := rc.y.(*ssa.Const)
+	var eq, known bool
+	switch {
+	case xc && yc:
+		eq, known = constString(kx) == constString(ky), true
+	case yc:
+		eq, known = e.facts[threadFact{rc.x, constString(ky)}]
+	case xc:
+		eq, known = e.facts[threadFact{rc.y, constString(kx)}]
+	}
+	if !known {
+		return false, false
+	}
+	t := eq
+	if rc.op == token.NEQ {
+		t = !eq
+	}
+	return t != rc.neg, true
+}
+
+// atomOf renders the fact the resolved condition establishes when it evaluates to truth.
+func atomOf(rc resolvedCond, truth bool) (Atom, bool) {
+	if rc.neg {
+		truth = !truth
+	}
+	if rc.val != nil {
+		return condAtom(rc.val, truth)
+	}
+	op := rc.op.String()
+	if !truth {
+		op = negOp[op]
+	}
+	return Atom{Path(rc.x), op, Path(rc.y)}, true
+}
+
+// learn records what crossing the edge teaches about values that condition phis merge.
+func (e *threadEnv) learn(rc resolvedCond, truth bool, inputs map[ssa.Value]bool) {
+	if rc.neg {
+		truth = !truth
+	}
+	if rc.val != nil {
+		if inputs[rc.val] {
+			e.facts[threadFact{rc.val, "true"}] = truth
+		}
+		return
+	}
+	if rc.op != token.EQL && rc.op != token.NEQ {
+		return
+	}
+	eq := truth
+	if rc.op == token.NEQ {
+		eq = !truth
+	}
+	if k, ok := rc.y.(*ssa.Const); ok && inputs[rc.x] {
+		e.facts[threadFact{rc.x, constString(k)}] = eq
+	} else if k, ok := rc.x.(*ssa.Const); ok && inputs[rc.y] {
+		e.facts[threadFact{rc.y, constString(k)}] = eq
+	}
+}
+
+// threadInfo is the spec-independent part: which phis matter, and every feasible traversal of an If edge
+// with the atoms it establishes (as written and as resolved on that path).
+type threadInfo struct {
+	phis      map[*ssa.Phi]bool
+	inputs    map[ssa.Value]bool
+	phisIn    map[*ssa.BasicBlock][]*ssa.Phi
+	definedIn map[*ssa.BasicBlock][]ssa.Value
+	once      sync.Once
+	trav      map[edge][][]Atom // per If edge: one atom list per feasible (block, path-state) traversal
+	capped    bool
+}
+
+// threadInfos: *ssa.Program -> *sync.Map(*ssa.Function -> *threadInfo). Keyed by program so that a finished run
+// (each stored mutant builds its own program) can drop its entries: see dropThreadInfos.
+var threadInfos sync.Map
+
+func dropThreadInfos(prog *ssa.Program) { threadInfos.Delete(prog) }
+
+func threadInfoOf(fn *ssa.Function) *threadInfo {
+	pm, _ := threadInfos.LoadOrStore(fn.Prog, &sync.Map{})
+	m := pm.(*sync.Map)
+	if v, ok := m.Load(fn); ok {
+		return v.(*threadInfo)
+	}
+	ti := &threadInfo{phisIn: map[*ssa.BasicBlock][]*ssa.Phi{}, definedIn: map[*ssa.BasicBlock][]ssa.Value{}}
+	ti.phis, ti.inputs = condPhis(fn)
+	for p := range ti.phis {
+		ti.phisIn[p.Block()] = append(ti.phisIn[p.Block()], p)
+	}
+	for v := range ti.inputs {
+		if in, ok := v.(ssa.Instruction); ok && in.Block() != nil {
+			ti.definedIn[in.Block()] = append(ti.definedIn[in.Block()], v)
+		}
+	}
+	v, _ := m.LoadOrStore(fn, ti)
+	return v.(*threadInfo)
+}
+
+// explore walks fn from its entry path-sensitively. blocked decides whether an If edge may be crossed given the
+// atoms it establishes on the current path; visit (optional) sees every feasible If-edge traversal.
+// capped reports that the state bound was hit (the caller must then fall back to the path-insensitive search).
+func (ti *threadInfo) explore(fn *ssa.Function, barrier func(b *ssa.BasicBlock) int, blocked func(e edge, cands []Atom) bool, visit func(e edge, cands []Atom)) (limit map[*ssa.BasicBlock]int, capped bool) {
 	limit = map[*ssa.BasicBlock]int{}
 	if len(fn.Blocks) == 0 {
 		return
@@ -109,62 +311,48 @@ func reachThreaded(fn *ssa.Function, g guardSpec) (limit map[*ssa.BasicBlock]int
 		b   *ssa.BasicBlock
 		env threadEnv
 	}
-	resolve := func(v ssa.Value, env threadEnv) (ssa.Value, bool) {
-		neg := false
-		for i := 0; i < 16; i++ {
-			switch x := v.(type) {
-			case *ssa.UnOp:
-				if x.Op == token.NOT {
-					neg = !neg
-					v = x.X
-					continue
-				}
-			case *ssa.Phi:
-				if idx, ok := env[x]; ok && idx >= 0 && idx < len(x.Edges) {
-					v = x.Edges[idx]
-					continue
-				}
-			}
-			break
-		}
-		return v, neg
-	}
-	guardEdgeSeen := map[edge]bool{}
 	seen := map[string]bool{}
-	work := []state{{fn.Blocks[0], threadEnv{}}}
+	start := threadEnv{phi: map[*ssa.Phi]int{}, facts: map[threadFact]bool{}}
+	work := []state{{fn.Blocks[0], start}}
 	seen[fmt.Sprintf("%d|", fn.Blocks[0].Index)] = true
 	push := func(from *ssa.BasicBlock, si int, env threadEnv) {
 		to := from.Succs[si]
-		env2 := env
-		if ps := phisIn[to]; len(ps) > 0 {
-			env2 = threadEnv{}
-			for k, v := range env {
-				env2[k] = v
-			}
+		ps, defs := ti.phisIn[to], ti.definedIn[to]
+		if len(ps) > 0 || len(defs) > 0 {
+			env = env.clone()
 			pi := predIndexOf(from, si)
 			for _, p := range ps {
-				env2[p] = pi
+				env.phi[p] = pi
+			}
+			// values (re)computed in the target block: what was known about the previous evaluation is stale
+			for _, v := range defs {
+				for f := range env.facts {
+					if f.v == v {
+						delete(env.facts, f)
+					}
+				}
 			}
 		}
-		k := fmt.Sprintf("%d|%s", to.Index, env2.key())
+		k := fmt.Sprintf("%d|%s", to.Index, env.key())
 		if !seen[k] {
 			seen[k] = true
-			work = append(work, state{to, env2})
+			work = append(work, state{to, env})
 		}
 	}
 	for len(work) > 0 {
 		if len(seen) > threadStateCap {
-			removed, d := guardEdges(fn, g)
-			return reachUnguarded(fn, removed, g.afters), len(removed), d
+			return limit, true
 		}
 		st := work[len(work)-1]
 		work = work[:len(work)-1]
 		b := st.b
-		if bi := barrierIndex(b, g.afters); bi >= 0 {
-			if limit[b] < bi+1 {
-				limit[b] = bi + 1
+		if barrier != nil {
+			if bi := barrier(b); bi >= 0 {
+				if limit[b] < bi+1 {
+					limit[b] = bi + 1
+				}
+				continue
 			}
-			continue
 		}
 		limit[b] = len(b.Instrs)
 		if len(b.Instrs) == 0 {
@@ -177,33 +365,211 @@ func reachThreaded(fn *ssa.Function, g guardSpec) (limit map[*ssa.BasicBlock]int
 			}
 			continue
 		}
-		cond, neg := resolve(iff.Cond, st.env)
+		rc := st.env.resolve(iff.Cond)
+		fixed, isFixed := st.env.decided(rc)
 		for si, truth := range []bool{true, false} {
-			want := truth != neg // the truth value the resolved condition has on this edge
-			if k, ok := cond.(*ssa.Const); ok {
-				if (constString(k) == "true") != want {
-					continue // infeasible on this path
-				}
-				push(b, si, st.env)
+			if isFixed && fixed != truth {
+				continue // infeasible on this path
+			}
+			// the condition as written (phis rendered as phi(…), which rule tables may name) and as resolved on this path
+			var cands []Atom
+			if a, ok := condAtom(iff.Cond, truth); ok {
+				cands = append(cands, a)
+			}
+			if a, ok := atomOf(rc, truth); ok && (len(cands) == 0 || a != cands[0]) {
+				cands = append(cands, a)
+			}
+			e := edge{b, si}
+			if visit != nil {
+				visit(e, cands)
+			}
+			if blocked != nil && blocked(e, cands) {
 				continue
 			}
-			blocked := false
-			if a, ok := condAtom(cond, want); ok {
-				for _, sp := range g.atoms {
-					if sp.Satisfies(a) {
-						blocked = true
-						if !guardEdgeSeen[edge{b, si}] {
-							guardEdgeSeen[edge{b, si}] = true
-							descr = append(descr, a.String())
-						}
-						break
-					}
-				}
+			env := st.env
+			if !isFixed {
+				env = env.clone()
+				env.learn(rc, truth, ti.inputs)
 			}
-			if !blocked {
-				push(b, si, st.env)
+			push(b, si, env)
+		}
+	}
+	return limit, false
+}
+
+// traversals: every feasible If-edge traversal of fn (no blocking, no barriers), computed once per function.
+func (ti *threadInfo) traversals(fn *ssa.Function) (map[edge][][]Atom, bool) {
+	ti.once.Do(func() {
+		ti.trav = map[edge][][]Atom{}
+		_, ti.capped = ti.explore(fn, nil, nil, func(e edge, cands []Atom) {
+			ti.trav[e] = append(ti.trav[e], cands)
+		})
+	})
+	return ti.trav, ti.capped
+}
+
+func satisfiesAny(g guardSpec, cands []Atom) (Atom, bool) {
+	for _, a := range cands {
+		for _, sp := range g.atoms {
+			if sp.Satisfies(a) {
+				return a, true
 			}
 		}
 	}
+	return Atom{}, false
+}
+
+// threadedGuardEdges: If edges on which g is established on EVERY feasible traversal (through the phi choices of
+// the path), in addition to those guardEdges finds on the written condition.
+func threadedGuardEdges(fn *ssa.Function, g guardSpec, edges map[edge]bool, descr *[]string) {
+	ti := threadInfoOf(fn)
+	if len(ti.phis) == 0 || len(g.atoms) == 0 {
+		return
+	}
+	trav, capped := ti.traversals(fn)
+	if capped {
+		return
+	}
+	for e, ts := range trav {
+		if edges[e] || len(ts) == 0 {
+			continue
+		}
+		all := true
+		var first Atom
+		for i, cands := range ts {
+			a, ok := satisfiesAny(g, cands)
+			if !ok {
+				all = false
+				break
+			}
+			if i == 0 {
+				first = a
+			}
+		}
+		if all {
+			edges[e] = true
+			*descr = append(*descr, first.String())
+		}
+	}
+}
+
+// reachThreaded is reachUnguarded(fn, guardEdges(fn, g), g.afters) with per-path blocking: an edge is not crossed
+// on the paths where g is established, even if other paths through the same edge do not establish it.
+// nGuardEdges counts the (block, successor) pairs on which the guard was found established at least once.
+func reachThreaded(fn *ssa.Function, g guardSpec) (limit map[*ssa.BasicBlock]int, nGuardEdges int, descr []string) {
+	ti := threadInfoOf(fn)
+	if len(ti.phis) == 0 {
+		removed, d := guardEdges(fn, g)
+		return reachUnguarded(fn, removed, g.afters), len(removed), d
+	}
+	guardEdgeSeen := map[edge]bool{}
+	limit, capped := ti.explore(fn, aftersBarrier(g.afters), func(e edge, cands []Atom) bool {
+		a, ok := satisfiesAny(g, cands)
+		if ok && !guardEdgeSeen[e] {
+			guardEdgeSeen[e] = true
+			descr = append(descr, a.String())
+		}
+		return ok
+	}, nil)
+	if capped {
+		removed, d := guardEdges(fn, g)
+		return reachUnguardedPlain(fn, removed, g.afters), len(removed), d
+	}
 	return limit, len(guardEdgeSeen), descr
+}
+
+// reachUnguardedThreaded: reachUnguarded with infeasible-path pruning; nil when not applicable.
+func reachUnguardedThreaded(fn *ssa.Function, removed map[edge]bool, afters []string) map[*ssa.BasicBlock]int {
+	ti := threadInfoOf(fn)
+	if len(ti.phis) == 0 {
+		return nil
+	}
+	return reachUnguardedBarrier(fn, removed, aftersBarrier(afters))
+}
+
+func aftersBarrier(afters []string) func(b *ssa.BasicBlock) int {
+	if len(afters) == 0 {
+		return nil
+	}
+	return func(b *ssa.BasicBlock) int { return barrierIndex(b, afters) }
+}
+
+// reachUnguardedBarrier: path-sensitive reachability with an arbitrary barrier (index of the first barrier
+// instruction of a block, or -1); nil when the function has no merged conditions or the state bound was hit.
+func reachUnguardedBarrier(fn *ssa.Function, removed map[edge]bool, barrier func(b *ssa.BasicBlock) int) map[*ssa.BasicBlock]int {
+	ti := threadInfoOf(fn)
+	if len(ti.phis) == 0 {
+		return nil
+	}
+	limit, capped := ti.explore(fn, barrier, func(e edge, _ []Atom) bool { return removed[e] }, nil)
+	if capped {
+		return nil
+	}
+	return limit
+}
+
+// threadedGuardEdgesCanon is threadedGuardEdges for rule tables that rewrite atom operands before matching.
+func threadedGuardEdgesCanon(fn *ssa.Function, g guardSpec, canon func(string) string, edges map[edge]bool, descr *[]string) {
+	ti := threadInfoOf(fn)
+	if len(ti.phis) == 0 || len(g.atoms) == 0 {
+		return
+	}
+	trav, capped := ti.traversals(fn)
+	if capped {
+		return
+	}
+	for e, ts := range trav {
+		if edges[e] || len(ts) == 0 {
+			continue
+		}
+		all := true
+		var first Atom
+		for i, cands := range ts {
+			cc := make([]Atom, len(cands))
+			for j, a := range cands {
+				cc[j] = Atom{canon(a.L), a.Op, canon(a.R)}
+			}
+			a, ok := satisfiesAny(g, cc)
+			if !ok {
+				all = false
+				break
+			}
+			if i == 0 {
+				first = a
+			}
+		}
+		if all {
+			edges[e] = true
+			*descr = append(*descr, first.String())
+		}
+	}
+}
+
+// reachGuardedCanon: per-path blocking (as reachThreaded) with operand rewriting and an arbitrary barrier.
+// extra = edges already known to establish the guard. nil when not applicable (no merged conditions / bound hit).
+func reachGuardedCanon(fn *ssa.Function, g guardSpec, canon func(string) string, extra map[edge]bool, barrier func(b *ssa.BasicBlock) int) map[*ssa.BasicBlock]int {
+	ti := threadInfoOf(fn)
+	if len(ti.phis) == 0 {
+		return nil
+	}
+	limit, capped := ti.explore(fn, barrier, func(e edge, cands []Atom) bool {
+		if extra[e] {
+			return true
+		}
+		for _, a := range cands {
+			if canon != nil {
+				a = Atom{canon(a.L), a.Op, canon(a.R)}
+			}
+			for _, sp := range g.atoms {
+				if sp.Satisfies(a) {
+					return true
+				}
+			}
+		}
+		return false
+	}, nil)
+	if capped {
+		return nil
+	}
+	return limit
 }
